@@ -170,6 +170,8 @@ pub mod c14 {
     raw_h!(q_raw_srat_rintc, kinds::srat::rintc(true), 24, 28);
     raw_h!(q_raw_pptt_cache, kinds::pptt::cache_node(None), 32, 36);
     raw_h!(q_raw_hmat_prox, kinds::hmat::prox(), 44, 48);
+    raw_h!(q_raw_gas, kinds::sym_gas(), 16, 20);
+    raw_h!(q_raw_madt_gicmsi_nospi, kinds::madt::gicmsi(false), 32, 36);
 
     // AML objects (opaque symbolic children of concrete length)
     macro_rules! aml_h {
